@@ -15,6 +15,12 @@ func Jobs(run *ev.Run, prop string) []Job {
 	q := func(p dkgsys.Protocol, n, t, dealer int, byz []int, d int) Job {
 		return Job{Cfg: dkgsys.Config{Proto: p, N: n, T: t, Dealer: dealer, Byz: byz, Seed: s}, D: d}
 	}
+	// bounded delivery order (see dkgsys.ExploreBounded): Joint-Feldman with >= 3 honest participants
+	b := func(p dkgsys.Protocol, n, t, dealer int, byz []int, d, reorder int) Job {
+		j := q(p, n, t, dealer, byz, d)
+		j.BoundedOrder, j.Reorder = true, reorder
+		return j
+	}
 	if !run.Thorough() {
 		return []Job{
 			q(dkgsys.FVSSQ, 3, 1, 0, []int{0}, 2), // Byzantine dealer
@@ -25,6 +31,8 @@ func Jobs(run *ev.Run, prop string) []Job {
 			q(dkgsys.JF, 3, 1, 0, []int{0}, jfD),
 			q(dkgsys.JF, 3, 1, 0, []int{1}, 1),
 			q(dkgsys.JF, 3, 1, 0, []int{2}, 1),
+			b(dkgsys.JF, 4, 1, 0, []int{0}, 1, 2),
+			b(dkgsys.JF, 4, 1, 0, []int{3}, 1, 2),
 		}
 	}
 	return []Job{
@@ -40,6 +48,10 @@ func Jobs(run *ev.Run, prop string) []Job {
 		q(dkgsys.JF, 3, 1, 0, []int{0}, 2),
 		q(dkgsys.JF, 3, 1, 0, []int{1}, 1),
 		q(dkgsys.JF, 3, 1, 0, []int{2}, 1),
+		b(dkgsys.JF, 4, 1, 0, []int{0}, 2, 2),
+		b(dkgsys.JF, 4, 1, 0, []int{0}, 1, 3),
+		b(dkgsys.JF, 4, 1, 0, []int{2}, 1, 3),
+		b(dkgsys.JF, 5, 2, 0, []int{0, 4}, 1, 2), // two colluding Byzantine dealers
 	}
 }
 
